@@ -162,6 +162,13 @@ def mismatch_diffs(m):
                     d.append((f'row[{o["op"]}{",all" if o["all"] else ""}{",neg" if o["negate"] else ""}{",ws" if o["ws"] else ""}{",limit" if o["limit"] else ""}]{kind}',
                               dict(o=o, ranges=e['rows'][i]), g['rows'][i]))
             return d
+        if rec['ev'] == 'WebAnno' and isinstance(g, dict) and isinstance(e, dict):
+            if e.get('wf') != g.get('wf') or e.get('ok') != g.get('ok'):
+                return [('webanno.' + k, e.get(k), g.get(k)) for k in ('ok', 'wf') if e.get(k) != g.get(k)]
+            return [('webanno.' + k, e.get(k), g.get(k)) for k in ('ok', 'wf', 'targets', 'others', 'extra', 'body')
+                    if json.dumps(e.get(k), sort_keys=True) != json.dumps(g.get(k), sort_keys=True)
+                    and not (k == 'others' and set(map(lambda x: json.dumps(x), e.get(k) or [])) == set(map(lambda x: json.dumps(x), g.get(k) or [])))
+                    and not (k in ('body',) and sorted(map(lambda x: json.dumps(x, sort_keys=True), e.get(k) or [])) == sorted(map(lambda x: json.dumps(x, sort_keys=True), g.get(k) or [])))]
         return [('readonly', e, {'res': rec.get('res'), 'api': g})]
     if exp.get('roundtrip'):
         ok = exp['ok']
@@ -257,7 +264,7 @@ def attribute(m, diffs):
 
 READONLY_OWNER = {'Lookup': 'C03', 'TextSel': 'C04', 'AnnTextOf': 'C04', 'OffsetReport': 'C04', 'Utf8Byte': 'C12',
                   'ByteToChar': 'C12', 'TextOp': 'C07', 'TestRelation': 'C13', 'RelatedText': 'C06',
-                  'TestRelationRow': 'C13', 'RelatedRow': 'C06', 'Validate': 'C18'}
+                  'TestRelationRow': 'C13', 'RelatedRow': 'C06', 'Validate': 'C18', 'WebAnno': 'C17'}
 
 
 def _has_offset(t):
@@ -290,6 +297,8 @@ def arg_features(rec):
             f.append('off=' + a['off']['bk'] + a['off']['ek'])
     elif ev == 'OffsetReport':
         f.append('m=%d' % a['m'])
+    elif ev == 'WebAnno':
+        f.append('tmpl=%s,ns=%s' % (a['tmpl'], a['ns']))
     elif ev == 'RoundTrip':
         f.append('format=' + a['format'])
         f.append('layout=' + a['layout'])
@@ -315,7 +324,7 @@ def arg_features(rec):
 def fingerprint(m, diffs):
     rec, exp = m['rec'], m['exp']
     paths = sorted(set(norm_path(p) for p, _, _ in diffs))
-    if exp.get('readonly') and rec['ev'] in ('TestRelationRow', 'RelatedRow'):
+    if exp.get('readonly') and rec['ev'] in ('TestRelationRow', 'RelatedRow', 'WebAnno'):
         return '|'.join([rec['ev'], 'exp=ro', 'got=' + rec['outcome'], ','.join(paths), ','.join(arg_features(rec))])
     if exp.get('roundtrip'):
         classes = sorted(set(re.sub(r'^(view\.\w+(\[\*\])?(\.\w+)?(\[\*\])?(\.\w+)?|st\.\w+(\[\*\])?(\.\w+)?|api\.\w+(\[\*\])?(\.\w+)?|\w+).*$', r'\1', p) for p in paths))
